@@ -162,6 +162,10 @@ class World(object):
         self.commit_count = 0
         self.crash_at = None
         self.crashed = False
+        self.hard_kill = False       # validity.py: die for real (os._exit) at the crash point instead of simulating it
+        self.want_pre_boot = False   # validity.py: after a simulated crash, dump the files before the reboot
+        self.pre_boot = None
+        self.keep_dir = False
         self.anomalies = []
         self.reader_c = None
         self.reader_u = None
@@ -186,7 +190,8 @@ class World(object):
         finally:
             for p in self._patches:
                 p.stop()
-            shutil.rmtree(self.dir, ignore_errors=True)
+            if not self.keep_dir:
+                shutil.rmtree(self.dir, ignore_errors=True)
 
     def argv(self):
         a = ["--port", "tcp:0", "--channel-db", self.chan_path]
@@ -283,6 +288,8 @@ class World(object):
         self.commit_count += 1
         self.log.append([which])
         if self.crash_at is not None and self.commit_count == self.crash_at:
+            if self.hard_kill:
+                os._exit(0)      # no rollback, no close, no flush: what kill -9 leaves is what is on disk now
             self.crashed = True
             raise Crash()
 
@@ -325,6 +332,23 @@ class World(object):
         d["cur"] = [[ticks(r[0]), ticks(r[1]), (None if r[2] is None else r[2] * TPS), r[3]]
                     for r in q("SELECT rebooted,updated,blur_time,connections_websocket FROM current ORDER BY rowid")]
         return d
+
+    @classmethod
+    def dump_files(cls, chan_path, usage_path):
+        """the database files as a fresh, independent sqlite3 connection sees them"""
+        c = sqlite3.connect(chan_path)
+        try:
+            chan = cls.dump_chan(c)
+        finally:
+            c.close()
+        usage = None
+        if usage_path:
+            u = sqlite3.connect(usage_path)
+            try:
+                usage = cls.dump_usage(u)
+            finally:
+                u.close()
+        return {"chan": chan, "usage": usage}
 
     def views(self):
         return (self.dump_chan(self.chan_db), self.dump_chan(self.reader_c),
@@ -589,6 +613,8 @@ class World(object):
             anomalies = self.anomalies
             oracle = self.oracle
             self._teardown(clean=False)
+            if self.want_pre_boot:
+                self.pre_boot = self.dump_files(self.chan_path, self.usage_path)
             bl = self.boot()
             self.log = pre
             self.anomalies = anomalies
